@@ -119,6 +119,16 @@ func (vc *VC) isOpaqueStruct(t types.Type) bool {
 		}
 		return true
 	}
+	// other dependencies: a struct with exported fields is addressed field by
+	// field by the repository's code (composite literals, field reads), so it
+	// is transparent; types that only offer methods stay opaque values
+	if st, ok := n.Underlying().(*types.Struct); ok {
+		for i := 0; i < st.NumFields(); i++ {
+			if st.Field(i).Exported() {
+				return false
+			}
+		}
+	}
 	return true
 }
 
